@@ -5,7 +5,7 @@ from contracts import lri_lock as m
 
 def run(ded, repo, tier):
     specs = [dict(module='contracts.lri_lock', repo=repo, q=q, variant=v, clause_of={'*': 'atomicity'}, tier=tier, only='guard')
-             for q, vs in m.TARGETS for v in vs]
+             for q, vs in m.targets(repo) for v in vs]
     driver.run_parallel(ded, specs)
     ded.assume('meta-argument (not mechanised): one lock + all protected accesses of an operation inside one critical '
                'section => every schedule is equivalent to a sequential one ordered by lock acquisition; sequential '
